@@ -23,12 +23,12 @@ def G1 (s : St) (a : Act) (_ : St) : Prop := Guard1 s a
 /-- hypothesis 2: the kick path is not entered and the player stays connected -/
 def G2 (_ : St) (_ : Act) (s' : St) : Prop := NoKick s' ∧ s'.active = true
 
-def Repaired (cfg : Cfg) : Prop := cfg.atomicSet = true ∧ cfg.foreignReset = false
+def Repaired (cfg : Cfg) : Prop := cfg.atomicSet = true ∧ cfg.foreignReset = false ∧ cfg.joinBySnapshot = false
 
 theorem reach1_inv1 {cfg : Cfg} (hr : Repaired cfg) {s : St} (h : Reach cfg G1 s) : Inv1 s := by
   induction h with
   | init hi => exact inv1_init _ hi.1 hi.2.1
-  | step _ hg hs ih => exact inv1_step hr.1 hr.2 ih hg hs
+  | step _ hg hs ih => exact inv1_step hr.1 hr.2.1 ih hg hs
 
 theorem resetPc_isKickPc (pc : PC) (h : resetPc pc = true) : isKickPc pc = true := by
   cases pc <;> simp_all [resetPc, isKickPc]
@@ -154,6 +154,7 @@ theorem step_server_result {cfg : Cfg} {s s' : St} {a : Act} (h : step cfg s a =
            · rename_i hcc; subst hcc; refine ⟨rfl, fun r hr => ?_⟩; simp_all
            · exact ⟨rfl, fun r h => h⟩)
   | spawn m d ev => simp [step] at h; subst h; exact ⟨rfl, fun r h => h⟩
+  | create d tag => simp [step] at h; subst h; exact ⟨rfl, fun r h => h⟩
   | release c0 =>
     simp only [step] at h
     split at h
@@ -279,6 +280,7 @@ theorem TD_RS_ext {cfg : Cfg} {s s' : St} {a : Act} (hna : ∀ i, a ≠ .task i)
             all_goals (try (injection h with h; subst h))
             all_goals (simp at hj; omega)
         | spawn m d ev => simp [step] at h; subst h; simp at hj; omega
+        | create d tag => simp [step] at h; subst h; simp at hj; omega
         | release c0 => simp only [step] at h; split at h <;> simp at h; subst h; simp at hj; omega
         | kick c0 => simp only [step] at h; split at h <;> simp at h; subst h; simp at hj; omega
         | drop c0 => simp only [step] at h; split at h <;> simp at h; subst h; simp at hj; omega
@@ -298,6 +300,7 @@ theorem TD_RS_ext {cfg : Cfg} {s s' : St} {a : Act} (hna : ∀ i, a ≠ .task i)
           all_goals (try (injection h with h; subst h))
           all_goals (first | (simp at hj; done) | (simp [spawnTask_tasks] at hres))
       | spawn m d ev => simp [step] at h; subst h; simp [spawnTask_tasks] at hres
+      | create d tag => simp [step] at h; subst h; simp [spawnTask_tasks] at hres
       | release c0 => simp only [step] at h; split at h <;> simp at h; subst h; simp at hj
       | kick c0 => simp only [step] at h; split at h <;> simp at h; subst h; simp [spawnTask_tasks] at hres
       | drop c0 => simp only [step] at h; split at h <;> simp at h; subst h; simp [spawnTask_tasks] at hres
@@ -309,6 +312,7 @@ theorem step_TD_RS {cfg : Cfg} {s s' : St} {a : Act} (hTC : TC s) (hTN : TN s) (
   | task i => exact stepTask_TD_RS hTC hTN hTD hRS h
   | back c0 => exact TD_RS_ext (by intro i; simp) hTC hTD hRS h
   | spawn m d ev => exact TD_RS_ext (by intro i; simp) hTC hTD hRS h
+  | create d tag => exact TD_RS_ext (by intro i; simp) hTC hTD hRS h
   | release c0 => exact TD_RS_ext (by intro i; simp) hTC hTD hRS h
   | kick c0 => exact TD_RS_ext (by intro i; simp) hTC hTD hRS h
   | drop c0 => exact TD_RS_ext (by intro i; simp) hTC hTD hRS h
@@ -330,7 +334,7 @@ theorem reach2_inv2 {cfg : Cfg} (hr : Repaired cfg) {s : St} (h : Reach cfg G2 s
   | @step s s' a _ hg hs ih =>
     have hg1 : Guard1 s a := guard1_of_noKick ih.nk a (fun i hi => by subst hi; exact stepTask_lt hs)
     have htr := step_TD_RS ih.i1.tc ih.i1.tn ih.td ih.rs hs
-    exact ⟨inv1_step hr.1 hr.2 ih.i1 hg1 hs, core2_step ih.i1 ih.c2 hg.2 ih.nk hg.1 hs, hg.1, hg.2, htr.1, htr.2⟩
+    exact ⟨inv1_step hr.1 hr.2.1 ih.i1 hg1 hs, core2_step hr.2.2 ih.i1 ih.c2 hg.2 ih.nk hg.1 hs, hg.1, hg.2, htr.1, htr.2⟩
 
 
 theorem scanTry_sound (skip : Nat → Bool) : ∀ (l : List Nat) (i j x : Nat),
